@@ -123,6 +123,10 @@ def discharge(site, ts, ex):
                     return "R-counter-inc", ""
                 if bound == "P+1" and (typestate.has_fact(facts, ("<", pp, a), want=False) or typestate.has_fact(facts, ("<=", a, pp))):
                     return "R-counter-inc(P+1; a Box<[f64]> of length P exists, so P < usize::MAX)", ""
+                if bound == "P":
+                    # the counter invariant n <= period holds at every call boundary (typestate), and a Box<[f64]> of length period exists,
+                    # so period <= isize::MAX / 8 and n + 1 cannot overflow whether or not this increment is stored
+                    return "R-counter-le-period (n <= period < usize::MAX)", ""
                 return None, "`%s + 1` is not dominated by the guard `%s < %s`" % (f, f, pf)
             return None, "`%s + 1`: `%s` is neither a cursor nor a counter" % (f, f)
         if kind in ("RemainderByZero", "DivisionByZero"):
@@ -133,6 +137,8 @@ def discharge(site, ts, ex):
                 d = c[1] if c[2] == cu(0) else (c[2] if c[1] == cu(0) else None)
             if isinstance(d, tuple) and d[0] == "pre" and d[1].startswith("self.") and d[1].split(".")[-1] in ts.len_fields:
                 return "R-div-period", ""
+            if buffer_of_len(d) in ts.buffers and ts.len_fields:
+                return "R-div-len (len(buffer) = period >= 1)", ""
             return None, "integer division/remainder by %s, not provably non-zero" % show(d if d is not None else c)[:60]
         if kind in ("MisalignedPointerDereference", "NullPointerDereference") and NO_UNSAFE[0]:
             return "R-safe-reference (compiler-inserted UB check on a reference / Box pointer; cannot fail in a crate without `unsafe`, which C05-S1 enforces)", ""
